@@ -82,7 +82,24 @@ const FIXED_LINES: &[&str] = &[
 ];
 
 fn junk(rng: &mut Rng) -> String {
-    match rng.below(19) {
+    match rng.below(21) {
+        19 | 20 => {
+            // a token of a familiar shape (move, square, number, keyword) with one character
+            // replaced by, or one inserted of, a multi-byte one - at every byte offset
+            let base: Vec<char> = rng
+                .pick(&["e2e4", "e7e8q", "g1f3", "a1", "e2", "12", "100", "depth", "startpos", "moves", "e1g1"])
+                .chars()
+                .collect();
+            let ch = *rng.pick(&['\u{e9}', '\u{265e}', '\u{1d11e}', '\u{df}']);
+            let at = rng.usize_below(base.len() + 1);
+            let mut t: Vec<char> = base.clone();
+            if at < t.len() && rng.chance(2, 3) {
+                t[at] = ch;
+            } else {
+                t.insert(at, ch);
+            }
+            t.into_iter().collect()
+        }
         16 => "\u{0}".into(),
         17 => "\u{1b}[31mgo\u{1b}[0m".into(),
         18 => "\u{7f}\u{8}".into(),
@@ -279,8 +296,61 @@ fn random_line(rng: &mut Rng) -> String {
     }
 }
 
+/// How many sessions (the first indices of a batch) run on a cache grown to game size.
+pub fn grown_cache_sessions(thorough: bool) -> u64 {
+    if thorough {
+        4
+    } else {
+        1
+    }
+}
+
+/// "in any order within a session" includes late in a long one: the cache is never emptied
+/// inside a session and passes a million entries in a real game. One long search grows it that
+/// far, and then the commands whose handling looks at the cache (ucinewgame, setoption Hash /
+/// Clear Hash, position, go) arrive, each followed by a probe.
+fn grown_cache_session(seed: u64) -> Vec<Plan> {
+    use super::super::kernel::Policy;
+    let mut rng = Rng::new(seed ^ 0x6c0a);
+    let mut plan = Plan::new("C15", seed);
+    let mut s = vec![];
+    s.push(Action::send(format!("position fen {}", rng.pick(gen::BENCH_FENS))));
+    s.push(Action::send(format!("go nodes {}", rng.range(12_500_000, 15_000_000))));
+    s.push(Action::WaitBestmove);
+    s.push(Action::WaitIdle);
+    s.push(Action::send("isready"));
+    let mut tail = vec![
+        "ucinewgame".to_string(),
+        "setoption name Hash value 1".to_string(),
+        "setoption name Clear Hash".to_string(),
+        "position startpos moves e2e4".to_string(),
+        "ucinewgame".to_string(),
+        format!("setoption name Hash value {}", rng.range(1, 4096)),
+    ];
+    rng.shuffle(&mut tail);
+    for l in tail {
+        s.push(Action::send(l));
+        s.push(Action::send("isready"));
+    }
+    s.push(Action::send("go depth 2"));
+    s.push(Action::WaitBestmove);
+    s.push(Action::WaitIdle);
+    s.push(Action::send("isready"));
+    s.push(Action::send("quit"));
+    plan.script = s;
+    plan.cost_ns = 1000;
+    plan.policy = Some(Policy::Quiet);
+    plan.step_cap = 2_000_000_000;
+    plan.tick_cap = 4_000_000_000;
+    plan.params = super::super::json::J::obj().set("grown_cache", true);
+    vec![plan]
+}
+
 pub fn generate(cx: &super::GenCtx) -> Vec<Plan> {
     let (seed, thorough) = (cx.seed, cx.thorough);
+    if cx.index < grown_cache_sessions(thorough) {
+        return grown_cache_session(seed);
+    }
     let mut rng = Rng::new(seed);
     let mut plan = Plan::new("C15", seed);
     let n = if thorough { rng.range(1, 40) } else { rng.range(1, 20) };
@@ -361,6 +431,10 @@ pub fn check(plans: &[Plan], recs: &[RunRec]) -> Outcome {
     common_stats(plan, rec, &mut out.stats);
     super::check_input_blocked(rec, &mut out);
     let h = history(rec);
+    if plan.params.b("grown_cache") {
+        out.stats.inc("reach.session_on_grown_cache");
+        out.stats.max("cache_entries_in_grown_cache_session", super::super::kernel::tt_len() as u64);
+    }
     let s = &mut out.stats;
 
     // 1. the input thread must never die
